@@ -43,6 +43,8 @@ def outerLaws (IL : MLaws I) (keysOf : Route → Option (List K))
   remove_none := fun s L id h hno => lremove_none IL keysOf s L id h hno
   remove_pos := fun s L id h hs => lremove_pos IL keysOf s L id h hs
   repr_batch := fun s L ids h => lrepr_batch IL keysOf s L ids h
+  repr_cache := fun s L limit level h => lrepr_cache IL keysOf s L limit level h
+  cache_le := fun s limit level => lcache_le IL s limit level
   mem_match := mem_match
   nodup_match := nodup_match
   mem_trace := mem_trace
